@@ -13,7 +13,7 @@ CLAIMS = {
  "C02": ("Coq theorems: every SpMV kernel (b=Ax, b+=Ax, b-=Ax, r=b-Ax, A^T variants) of COO/CSR/CSC equals the product with the represented operator for all "
          "matrices/vectors; distributed A x, b + A x, b - A x: each rank's rows equal the rows of the global operator gden applied to the global vector, for every list of rank "
          "states (any process count, any contiguous partition, empty ranks) and every package accepted by the forward check of C03; distributed A^T x = global transpose product "
-         "summed over all ranks' rows for every package accepted by the reverse check, independent of the previous content of b; block kernels = scalar kernels of the expanded blocks. Tie: extracted kernels and distributed model "
+         "summed over all ranks' rows for every package accepted by the reverse check, independent of the previous content of b; block kernels = scalar kernels of the expanded blocks; the same four products through the node-aware packages (model of tap_mult / tap_mult_T composed with the exchange theorems of C04) equal the global products. Tie: extracted kernels and distributed model "
          "(assembly with duplicates, package construction, exchange) vs the library on all formats, default/explicit/empty-rank partitions, tap on/off; dense reference; stale-output sentinel.",
          NOTE + "Block formats (BCOO/BSR/BSC): the kernels are proved for the row-major expansion of the blocks (with its denotation in terms of the blocks) and the expansion is what the correspondence compares with the library's block kernels; the distributed block products are not modelled. The package checks are discharged for the standard constructor by C03's construction theorem and checked on dumps otherwise.",
          "Coq proof over Gallina model + model/implementation correspondence"),
